@@ -526,6 +526,9 @@ def run(run):
         for c, f in nested_conditions():
             for form in ("if", "ifelse", "ifgoto"):
                 conds.append((c, form, f | {"form:" + form}))
+        for c in ("-A>1", "-A=B", "- A < B", "+A=1", "-A>=-1", "-(A)>1", "-A+1>B"):
+            for form in ("if", "ifelse", "ifgoto"):
+                conds.append((c, form, {"cond", "sign-before-comparison-in-if", "form:" + form}))
         for bare in ("A", "A+B", "A AND B", "NOT A", "A*B", "A-B", "(A)", "-A", "A OR B", "NOT A AND B"):
             for form in ("if", "ifelse", "ifgoto"):
                 conds.append((bare, form, {"cond", "bare-numeric-condition", "form:" + form} | ({"logic"} if any(w in bare for w in ("AND", "OR", "NOT")) else set())))
